@@ -488,6 +488,18 @@ FUNCTIONS = [
         expr_rules=[(r'^PRED\(v, value\)$', 'pred v value')],
     ),
     dict(
+        name='member_is_check', cxx='impl::member_is_matcher<M>::operator()', file='include/trompeloeil/matcher/member_is.hpp', module='MemberIsCheck',
+        header=r'bool operator\(\)\(const V& v, const C& c\) const',
+        pre=[(r'std::ref\(m\(v\)\)', 'MEMBER_OF_V')],
+        lean_sig='{γ μ : Type} (param_matches : γ → μ → Bool) (c : γ) (member_of_v : μ) : Bool', no_respell=True,
+        expr_rules=[(r'^trompeloeil::param_matches\(c, MEMBER_OF_V\)$', 'param_matches c member_of_v')],
+    ),
+    dict(
+        name='any_predicate', cxx='lambdas::any_predicate::operator()', file='include/trompeloeil/matcher/any.hpp', module='AnyPredicate',
+        header=r'struct any_predicate\s*\{\s*template <typename T>\s*bool\s*operator\(\)\(\s*T&&\)\s*const',
+        lean_sig=': Bool',
+    ),
+    dict(
         name='not_matches', cxx='not_matcher<M>::matches', file='include/trompeloeil/matcher/not.hpp', module='NotMatches',
         header=r'matches\(\s*const U& u\)\s*const\s*noexcept\(noexcept\(!std::declval<M>\(\)\.matches\(u\)\)\)',
         lean_sig='(m_matches_u : Bool) : Bool',
